@@ -128,6 +128,36 @@ Theorem C16E_ignored_init_request_leaves_nothing :
 Proof. exact ignored_init_request_leaves_nothing. Qed.
 Print Assumptions C16E_ignored_init_request_leaves_nothing.
 
+(** likewise an initiator IkeSa created for an ACQUIRE never stays in the table in ST_INITIAL (/repo fix f21): when no
+    table entry matches the address pair, a configuration exists, and the created IkeSa is still INITIAL after
+    process_trigger (unknown policy index: nothing was started), the table is the old table again, no kernel
+    operation was issued, and what is sent is whatever process_trigger returned *)
+Theorem C16E_unstarted_acquire_leaves_nothing :
+  forall E (ep : endpoint E) my peer tsi tsr index c ep0 cid (s0 : esa E),
+  (forall x, In x (map fst (table E ep)) -> (x < next_cid E ep)%nat) ->
+  find (fun x : nat * esa E => Z.eqb (my_addr (co (inner (hdl_iface E) (snd x)))) my
+                               && Z.eqb (peer_addr (co (inner (hdl_iface E) (snd x)))) peer) (table E ep) = None ->
+  find_conf E ep my peer = Some c ->
+  create E ep true (repeat 0%N 8) c my peer = Some (ep0, cid, s0) ->
+  let r := process_trigger (hdl_iface E) (enter E ep0 s0) (ep_now E ep0) (E_acquire tsi tsr index) in
+  state (hdl_iface E) (fst r) = ST_INITIAL ->
+  table E (acquire E ep my peer tsi tsr index) = table E ep
+  /\ ep_kops E (acquire E ep my peer tsi tsr index) = ep_kops E ep
+  /\ ep_sent E (acquire E ep my peer tsi tsr index) = ep_sent E (send E ep (snd r)).
+Proof. exact unstarted_acquire_leaves_nothing. Qed.
+Print Assumptions C16E_unstarted_acquire_leaves_nothing.
+
+(** non-vacuity: an ACQUIRE for a policy index that is not configured, from the empty table *)
+Theorem C16E_example_unstarted_acquire :
+  run_ok Example.E0 EpExample.ep_empty [] EpExample.hist3
+  /\ table Example.E0 (run Example.E0 EpExample.ep_empty EpExample.hist3) = []
+  /\ next_cid Example.E0 (run Example.E0 EpExample.ep_empty EpExample.hist3) = 1%nat
+  /\ ep_kops Example.E0 (run Example.E0 EpExample.ep_empty EpExample.hist3) = []
+  /\ ep_sent Example.E0 (run Example.E0 EpExample.ep_empty EpExample.hist3) = []
+  /\ run_sad Example.E0 EpExample.ep_empty [] EpExample.hist3 = [].
+Proof. exact (conj EpExample.hist3_ok EpExample.hist3_result). Qed.
+Print Assumptions C16E_example_unstarted_acquire.
+
 Theorem C16E_def_handle : forall E (ep : endpoint E) cid (s : esa E) m,
   handle E ep cid s m =
   finish E (send E (fst (leave E ep (fst (process_message (hdl_iface E) (enter E ep s) m (ep_now E ep)))))
